@@ -123,7 +123,10 @@ pub(super) fn decrypt_packet_body(
 
     if crypto_update {
         // Validate incoming key update
-        if number <= rx_packet || prev_crypto.is_some_and(|x| x.update_unacked) {
+        // `rx_packet` is 0 both before anything was received and after packet 0 was received; a
+        // key update carried by the very first packet we receive in this space is legitimate.
+        let reordered = number <= rx_packet && !spaces[space].dedup.is_empty();
+        if reordered || prev_crypto.is_some_and(|x| x.update_unacked) {
             return Err(Some(TransportError::KEY_UPDATE_ERROR("")));
         }
     }
